@@ -69,6 +69,8 @@ type connOut struct {
 	Records     int
 	Puts        []*tls.ClientSessionState
 	Deleted     int
+	SPeer       [][]byte // the server's view of the client's certificate chain (DER)
+	MitmNote    string   // set by an in-flight edit: "" = not installed, "done" or the reason it could not be applied
 }
 
 func (o *connOut) ok() bool { return o.COK && o.SOK && o.Panic == "" }
@@ -94,9 +96,14 @@ var (
 
 // runConn performs one handshake + one application data round trip.
 func runConn(cc, sc *tls.Config, inject *tls.ClientSessionState) *connOut {
+	return runConnPrep(cc, sc, inject, nil)
+}
+
+// runConnPrep is runConn with a transport preparation (man-in-the-middle).
+func runConnPrep(cc, sc *tls.Config, inject *tls.ClientSessionState, prep func(*tlsx.Net)) *connOut {
 	cache := &capCache{inject: inject}
 	cc.ClientSessionCache = cache
-	s := tlsx.Handshake(cc, sc, nil)
+	s := tlsx.Handshake(cc, sc, prep)
 	o := &connOut{WireResumed: -1, OfferKind: "none"}
 	o.COK, o.SOK = s.Client.OKDone, s.Server.OKDone
 	if s.Client.Err != nil {
@@ -115,6 +122,9 @@ func runConn(cc, sc *tls.Config, inject *tls.ClientSessionState) *connOut {
 		o.CRes, o.SRes = s.Client.State.DidResume, s.Server.State.DidResume
 		o.CVers, o.SVers = s.Client.State.Version, s.Server.State.Version
 		o.CSuite, o.SSuite = s.Client.State.CipherSuite, s.Server.State.CipherSuite
+		for _, pc := range s.Server.State.PeerCertificates {
+			o.SPeer = append(o.SPeer, pc.Raw)
+		}
 		// data phase: client -> server -> client. The client's Read also consumes
 		// TLS 1.3 NewSessionTicket messages (cache.Put).
 		var wg sync.WaitGroup
